@@ -11,6 +11,8 @@ cd /verif
 rc=$?
 git -C /repo checkout -- .
 git -C /repo clean -fdq -- . >/dev/null 2>&1
+# never leave binaries built from the patched tree behind
+(cd /repo/cmd/atlas && GOFLAGS=-mod=mod GOPROXY=off go build -tags verif -o /verif/.build/atlas . >/dev/null 2>&1)
 echo "rc=$rc"
 grep -E "^(VIOLATION|KNOWN-FINDING)" /verif/.work/seedtest.out | cut -c1-400 | head -5
 exit 0
